@@ -1,6 +1,6 @@
 """C11 — a kafka.Conn stays usable after broker-reported errors and is never reused misaligned;
 also the Conn half of C17 (conn_cut_cases).  DESIGN.md section 7, C11 / C17."""
-import json, os
+import json, os, re
 import checklib as L
 
 TRUSTED_BASE = [
@@ -98,7 +98,7 @@ def predicate(c):
     if not r:
         return [("C11-empty-result", "harness produced no result")]
     for cls, _ in r:
-        if kind(cls) in ("panic", "hang") and "framing" not in f and "split" not in f:
+        if kind(cls) in ("panic", "hang") and "framing" not in f and "split" not in f and "trunc2" not in f:
             bad.append(("C17-panic-or-hang", f"operation outcome {cls}"))
     op = f.get("op", "")
     if "cross" in f:
@@ -154,6 +154,31 @@ def predicate(c):
         for kk in ks:
             if kk in ("hang", "panic"):
                 bad.append(("C17-panic-or-hang", "operation outcome " + kk))
+        return bad
+    if "trunc2" in f:
+        # a COMPLETE frame whose message set is truncated by the broker inside the last magic-2
+        # record (MaxBytes truncation): the whole records are delivered, the batch then ends,
+        # Close returns nil, the client has consumed exactly the fetch frame: the next operations
+        # get their own answers (never a hang, never bytes of the next response)
+        ks = [kind(x) for x, _ in r]
+        want = parse_msgs(f.get("want", "[]")) or []
+        if ks[0] != "ok" or r[0][1] != "0":
+            bad.append(("C11-truncated-record-read-past-frame", f"{op} nwhole={f.get('nwhole')} hdr={f.get('hdr')} t={f.get('t')}/{f.get('reclen')} mode={f.get('mode')}: "
+                                                                 f"the read returned {r[0][0][:70]}~{r[0][1]}"))
+        else:
+            acts = r[0][0].split(":[", 1)[1][:-1]
+            got = [a.split(",", 1)[1].rsplit(",", 1)[0] for a in acts.split(";") if a.startswith("m,") and a.endswith(",ok") and a != "m,0,.,.,ok"]
+            if got != want[:len(got)]:
+                # Conn.ReadMessage / Conn.Read hide the end-of-batch io.EOF (silentEOF) and hand out what
+                # the truncated record's callbacks had captured: not an alignment matter (noted, not failed)
+                key = "NOTE-conn-read-partial-result-on-truncated-batch" if op.startswith("connread") else "C11-truncated-record-fabricated-message"
+                bad.append((key, f"{op} t={f.get('t')}/{f.get('reclen')}: nil error with {got} although no whole record was received (whole records {want})"))
+        for i, k in enumerate(ks[1:], 2):
+            if k != "ok" or r[i - 1][1] != "0":
+                bad.append(("C11-truncated-record-read-past-frame",
+                            f"{op} nwhole={f.get('nwhole')} hdr={f.get('hdr')} t={f.get('t')}/{f.get('reclen')} mode={f.get('mode')}: after {r[0][0][:40]} "
+                            f"operation #{i} returned {r[i - 1][0][:50]} instead of its own answer (the client did not stop at the frame boundary)"))
+                break
         return bad
     if "split" in f:
         # the response delivered in two pieces at every position (optionally with the following
@@ -428,7 +453,26 @@ def evaluate(cases, res, want):
     if notrun:
         notes.append(f"{len(notrun)} cases NOT RUN: the harness's circuit breaker tripped after 3 cases hit the 2 s watchdog "
                      "(an operation of the real Conn never returned); the hung cases are reported as property violations")
-    bad = L.diff_cases([c for c in sel if "drain" not in feats_of(c) and "comp" not in feats_of(c) and "notrun~" not in c["go"]], res)
+    bad = L.diff_cases([c for c in sel if "drain" not in feats_of(c) and "comp" not in feats_of(c) and "trunc2" not in feats_of(c)
+                        and "notrun~" not in c["go"]], res)
+    # PART K: the model does not keep what the action that hits the broker's truncation had already
+    # captured (Batch.Read returns n = len(value) with io.EOF when only the record headers are cut;
+    # Conn.Read / Conn.ReadMessage return that partial result with a nil error): compare everything
+    # but the content of that last action
+    def norm_trunc(txt, conn):
+        t0, _, rest = txt.partition(" ")
+        if conn:
+            t0 = re.sub(r":\[[^\]]*\]", ":[_]", t0)
+        else:
+            t0 = re.sub(r"r,[^;\]]*,eof\]", "r,_,eof]", t0)
+        return t0 + " " + rest
+    for c in sel:
+        if "trunc2" in feats_of(c) and "notrun~" not in c["go"]:
+            conn = feats_of(c).get("op", "").startswith("connread")
+            m = res.get(c["id"])
+            if m is None or norm_trunc(c["go"], conn) != norm_trunc(m, conn):
+                c2 = dict(c); c2["model"] = m
+                bad.append(c2)
     for c in bad[:10]:
         pv = predicate(c)
         detail = json.dumps(dict(case=c["line"][:1500], go=c["go"][:300], model=str(c.get("model"))[:300], feats=c["feats"]))
@@ -458,11 +502,11 @@ def evaluate(cases, res, want):
     ev, dn, hist = L.coverage_counts(sel, trivial_feats=("",))
     # non-trivial: an error code other than 0, or a cut
     dn = len({c["line"] for c in sel if ("cut" in feats_of(c)) or ("drain" in feats_of(c) and not c["args"].endswith(" -"))
-              or feats_of(c).get("code", "0") not in ("0", True) or "cross" in feats_of(c) or "framing" in feats_of(c) or "nego" in feats_of(c) or "reads" in feats_of(c) or "readcut" in feats_of(c) or "comp" in feats_of(c) or "split" in feats_of(c) or ("msgcut" in feats_of(c) and not c["args"].endswith(" -"))})
+              or feats_of(c).get("code", "0") not in ("0", True) or "cross" in feats_of(c) or "framing" in feats_of(c) or "nego" in feats_of(c) or "reads" in feats_of(c) or "readcut" in feats_of(c) or "comp" in feats_of(c) or "split" in feats_of(c) or "trunc2" in feats_of(c) or ("msgcut" in feats_of(c) and not c["args"].endswith(" -"))})
     hist = {}
     for c in sel:
         f = feats_of(c)
-        for k in ("op", "field", "code", "cutpos", "msgset", "kind", "cap", "list", "cutrel", "codec", "layout", "mode"):
+        for k in ("op", "field", "code", "cutpos", "msgset", "kind", "cap", "list", "cutrel", "codec", "layout", "mode", "nwhole", "hdr"):
             if k in f:
                 hist[f"{k}={f[k]}"] = hist.get(f"{k}={f[k]}", 0) + 1
     return dict(evaluations=ev, distinct_nontrivial=dn, hist=hist, failures=failures, notes=notes, sel=sel)
@@ -493,7 +537,9 @@ RULE = ("PART A (exhaustive, no randomness in the structure): every (operation, 
         "PART H (predicate only: compressed sets are not modelled): gzip/snappy/lz4/zstd magic-2 batches and magic-0/1 wrappers as first / "
         "middle unit, Close after 0..k messages, Conn.ReadMessage, Conn.Read, then two operations.  PART I: Conn.ReadMessage and "
         "Batch.ReadMessage x2 + Close over every cut position of small magic-0/1/2 fetch v2/v5/v10 responses.  PART J: the fetch response "
-        "delivered in two pieces at every byte position, with and without the following responses already queued.")
+        "delivered in two pieces at every byte position, with and without the following responses already queued.  PART K: complete fetch "
+        "frames whose magic-2 batch is truncated by the broker at every byte of its last record (0..3 whole records before it, with / "
+        "without record headers), read by ReadMessage / Read / Conn.ReadMessage / Conn.Read, next responses queued or not.")
 
 
 def correspondence(ctx):
@@ -501,10 +547,11 @@ def correspondence(ctx):
     ev = evaluate(cases, res, lambda f: True)
     # the cut x short-buffer-read cases (PART G) belong to C17: their findings are reported through
     # conn_cut_cases (./check C17) and only noted here
-    c17_only = lambda k: str(k) == "C17-short-buffer-error-hides-later-cut"
+    c17_only = lambda k: str(k) == "C17-short-buffer-error-hides-later-cut" or str(k).startswith("NOTE-")
     failures = [f for f in ev["failures"] if not c17_only(f.get("key"))]
     notes = ev["notes"] + ["C17 (Conn half) finding, reported by ./check C17 through conn_cut_cases: " + str(f.get("key")) + ": " + f["what"][:260]
                            for f in ev["failures"] if c17_only(f.get("key")) and f["what"].startswith(("fetchread", "connread"))]
+    notes = [n.replace("C17 (Conn half) finding, reported by ./check C17 through conn_cut_cases: NOTE-", "observation (not a C11 failure): ") for n in notes]
     sel = ev["sel"]
     n_exh = sum(1 for c in sel if "exh" in feats_of(c))
     samples = [c["line"][:260] + " | " + c["go"][:120] + " | " + c["feats"]
